@@ -179,7 +179,11 @@ impl<T: Copy> ReadStream<T> {
 
     #[must_use]
     pub fn wait_for_read(&self, need: usize) -> bool {
-        self.circ.wait_for_read(need) < need && Arc::strong_count(&self.circ) == 1
+        // Check if the writer is gone *before* counting samples. The other way
+        // around, the writer can commit its last samples and go away between
+        // the two checks, and we'd report "never" with data still buffered.
+        let closed = Arc::strong_count(&self.circ) == 1;
+        self.circ.wait_for_read(need) < need && closed
     }
 
     /// Return true if there is nothing more ever to read from the stream.
@@ -252,7 +256,9 @@ impl<T: Copy> WriteStream<T> {
 
     #[must_use]
     pub fn wait_for_write(&self, need: usize) -> bool {
-        self.circ.wait_for_write(need) < need && Arc::strong_count(&self.circ) == 1
+        // Same order as in `ReadStream::wait_for_read`.
+        let closed = Arc::strong_count(&self.circ) == 1;
+        self.circ.wait_for_write(need) < need && closed
     }
 
     #[must_use]
@@ -391,10 +397,14 @@ impl<T> NCReadStream<T> {
     /// Return true if there is nothing more ever to read from the stream.
     #[must_use]
     pub fn eof(&self) -> bool {
+        // Check if the writer is gone *before* checking for emptiness.
+        // Otherwise the writer can push its last packet and go away between
+        // the two checks, and the packet is lost to an EOF decision.
+        let closed = Arc::strong_count(&self.q) == 1;
         if !self.q.0.lock().unwrap().is_empty() {
             false
         } else {
-            Arc::strong_count(&self.q) == 1
+            closed
         }
     }
 }
